@@ -250,7 +250,7 @@ def boundary_ranges(n):
 PAGES = ['tmpl', 'short', 'empty', 'long', 'str', 'iter', 'raise', 'int', 'file']
 CTS = ['html', 'plain', 'json', 'octet', 'xml']
 EXT_KEYS = ('rh', 'acc', 'jin', 'noslash', 'sess', 'av', 'sf', 'er', 'xp', 'tb', 'encu', 'te', 'emsg', 'fo', 'gzl',
-            'u8', 'throw')
+            'u8', 'throw', 'md')
 ERS = ['-', 'c503', 'c204', 'c999', 'r303', 'r304', 'r306']
 ENTS = ['-', 'ok', 'bad', 'nolen']
 KEY_CODES = {100, 200, 201, 204, 205, 206, 301, 303, 304, 305, 402, 404, 406, 410, 412, 416, 500}
@@ -355,6 +355,8 @@ def normalise(case):
         c['bname'], c['body'], c['st'], c['hcl'], c['hstream'], c['ct'] = 'bytes', BODIES['bytes'], 'e404', 0, 0, 'html'
         ext.pop('sf', None)
         ext.pop('rh', None)
+    if ext.get('md') and (kind == 'R' or ns != 0):
+        ext.pop('md')      # (ext md: the resource at /md, reached through the MethodDispatcher; one URI per history)
     for r in c['reqs']:
         r['ns'] = ns
         if r['m'] != 'POST' or not ext.get('jin'):
@@ -735,7 +737,7 @@ def shrink_case(case, sig):
 def real_only(case):
     """the dimensions of a case that only the real side sees (texts, tracebacks, levels, paths), for keys and reports"""
     only = ','.join('%s=%s' % (k, v) for k, v in sorted((case.get('ext') or {}).items())
-                    if k in ('tb', 'te', 'emsg', 'fo', 'gzl', 'u8', 'throw', 'encu'))
+                    if k in ('tb', 'te', 'emsg', 'fo', 'gzl', 'u8', 'throw', 'encu', 'md'))
     ns3 = any(int(r.get('ns', 0)) == 3 for r in case['reqs'])
     return (' #' + only if only else '') + (' #path-not-found' if ns3 else '')
 
@@ -917,6 +919,28 @@ def systematic_quick():
         for rg in boundary_ranges(n) + RANGES[8:]:
             for tools in ([], ['stream'], ['encode', 'gzip']):
                 out.append(mk('gen', '-', tools, [req('GET', ae='gzip', rng=rg)], ct='plain', ext={'sf': n}))
+    # the same entity through serve_fileobj on a file object with fileno() whose read() returns at most 97 bytes at a
+    # time (ext fo = 2): whole entity, single ranges longer than one read, multipart/byteranges
+    for rg in ['-', 'bytes=0-', 'bytes=2-500', 'bytes=100-784', 'bytes=1-97', 'bytes=1-98', 'bytes=0-193',
+               'bytes=-300', 'bytes=0-120,300-700', 'bytes=5-99999'] + boundary_ranges(785)[:6]:
+        for tools in ([], ['stream'], ['gzip', 'etags'], ['caching']):
+            for m, proto in (('GET', '11'), ('HEAD', '11'), ('GET', '10')):
+                rq = req(m, ae='gzip', rng=rg, proto=proto)
+                out.append(mk('static785', '-', tools, [rq, dict(rq)] if 'caching' in tools else [rq], ext={'fo': 2}))
+    # a MethodDispatcher resource (GET and POST, no HEAD of its own) with the tools switched on in the verb methods'
+    # own _cp_config (ext md): GET, HEAD (answered through GET) and POST must be framed like the path-configured twin
+    for b in ('bytes', 'gen', 'text', 'json', 'big', 'static', 'file', 'empty'):
+        for tools in ([], ['gzip'], ['encode'], ['etags'], ['encode', 'gzip'], ['gzip', 'etags'], ['caching'],
+                      ['encode', 'gzip', 'etags', 'caching'], ['stream'], ['expires'], ['flatten']):
+            if b in TEXTY and 'encode' not in tools:
+                continue
+            for m in ('GET', 'HEAD', 'POST'):
+                for ac in ('-', 'latin1') if b in TEXTY else ('-',):
+                    rq = req(m, ae='gzip', ac=ac)
+                    out.append(mk(b, '-', tools, [rq, dict(rq)] if 'caching' in tools else [rq], ext={'md': 1}))
+    for st in ('s204', 's304', 'e404', 'r303', 'x'):
+        for m in ('GET', 'HEAD'):
+            out.append(mk('bytes', st, ['gzip', 'etags'], [req(m, ae='gzip')], ext={'md': 1}))
     # a user hook raising / rewriting / re-statusing at every position of the before_finalize chain
     for prio in HOOK_PRIOS:
         for act in HOOK_ACTS:
@@ -1106,6 +1130,10 @@ def random_ext(rng, tools):
                 ext[k] = 1
         if ext.get('sf') and rng.random() < 0.5:
             ext['sf'] = rng.choice([1, 7, 785, 20])
+        if ext.get('fo'):
+            ext['fo'] = rng.choice([1, 2])        # 2: the open file read through an object whose reads come back short
+        if rng.random() < 0.3:
+            ext['md'] = 1                         # MethodDispatcher resource, tools in the verb methods' _cp_config
         if rng.random() < 0.15:
             ext['er'] = rng.choice(ERS[1:])
         if 'expires' in tools and rng.random() < 0.5:
